@@ -196,8 +196,8 @@ Proof.
   destruct (run_ok c pre empty_sess sess_inv_empty Hpre) as [s1 [E1 Hinv1]].
   specialize (Hrest s1 E1). simpl in Hrest. destruct Hrest as [Hrep Htail].
   rewrite run_app, E1. simpl.
-  pose proof (refresh_started_inv s1 Hinv1) as [Hr Hi Hp].
-  destruct (refresh_correct c (refresh_started s1) report Hr Hi Hp Hrep) as [s2 [E2 Hpost]].
+  pose proof (refresh_started_inv s1 Hinv1) as [Hr Hp].
+  destruct (refresh_correct c (refresh_started s1) report Hr Hp Hrep) as [s2 [E2 Hpost]].
   simpl in Htail. rewrite E2 in *.
   assert (Hinv2 : sess_inv s2) by (destruct Hpost; constructor; auto).
   destruct (run_ok c tail s2 Hinv2 Htail) as [s3 [E3 Hinv3]]. exists s3. split; [exact E3|]. split; [exact Hinv3|].
@@ -268,13 +268,14 @@ Proof.
     apply Z.eqb_eq in E1. subst id. congruence.
 Qed.
 
-Lemma init_hosts_keeps_down c id : forall hs s s', sess_inv s -> init_ok c s hs -> init_hosts c s hs = Some s' ->
+Lemma init_hosts_keeps_down c id : forall hs s s', sess_inv s -> hosts_valid hs -> init_hosts c s hs = Some s' ->
   knows (s_ring s) id -> marked_down (s_ring s) id -> marked_down (s_ring s') id.
 Proof.
   induction hs as [|h tl IH]; intros s s' Hinv Hok; simpl.
   - intros H; injection H as <-. auto.
-  - destruct Hok as [Hadd Htl]. destruct Hinv as [Hr Hi Hp].
-    destruct (add_or_update_ok _ _ Hr Hi Hadd) as [r' [e [Hau [Hr' [Hi' [Hk Hke]]]]]]. rewrite Hau in *.
+  - assert (Hadd : invalid_connect_addr h = false) by (apply Hok; left; reflexivity).
+    assert (Htl : hosts_valid tl) by (intros x Hx; apply Hok; right; exact Hx). destruct Hinv as [Hr Hp].
+    destruct (add_or_update_ok _ _ Hr Hadd) as [r' [e [Hau [Hr' [Hk Hke]]]]]. rewrite Hau in *.
     intros H Hkn Hd.
     assert (Hinv1 : sess_inv (let s1 := with_ring s r' in if accept c e then start_pool_fill s1 e else s1)).
     { destruct (accept c e); constructor; simpl; auto. intros x. rewrite In_pool_add. intros [Hx| ->]; auto. }
@@ -289,18 +290,18 @@ Lemma step_keeps_down c s l s' id :
   sess_inv s -> label_ok c s l -> step c s l = Some s' -> knows (s_ring s) id -> marked_down (s_ring s) id ->
   l <> LConnected id ->
   marked_down (s_ring s') id
-  \/ exists report hr, l = LRefresh report /\ In hr (accepted c report) /\ h_id hr = id
+  \/ exists report hr, l = LRefresh report /\ In hr (effective c report) /\ h_id hr = id
                        /\ fresh_record (s_ring s) hr /\ get_host (s_ring s') id = Some hr.
 Proof.
   intros Hinv Hok Hstep Hkn Hd Hl. destruct l as [hs|h|report| |evs|id']; simpl in *.
   - left. eapply init_hosts_keeps_down; eauto.
   - left. destruct (add_or_update (s_ring s) h) as [[r' e]|] eqn:E; [|discriminate]. injection Hstep as <-. simpl.
     eapply add_or_update_keeps_down; eauto. apply (si_ring _ Hinv).
-  - pose proof (refresh_started_inv s Hinv) as [Hr Hi Hp].
-    destruct (refresh_correct c (refresh_started s) report Hr Hi Hp Hok) as [s2 [E2 Hpost]].
+  - pose proof (refresh_started_inv s Hinv) as [Hr Hp].
+    destruct (refresh_correct c (refresh_started s) report Hr Hp Hok) as [s2 [E2 Hpost]].
     rewrite E2 in Hstep. injection Hstep as <-.
     destruct (in_dec Z.eq_dec id (reported_ids c report)) as [Hin|Hnin].
-    + apply In_reported in Hin. destruct Hin as [hr [Hhr Hid]].
+    + apply effective_ids in Hin. apply in_map_iff in Hin. destruct Hin as [hr [Hid Hhr]].
       pose proof (rp_content _ _ _ _ Hpost hr Hhr) as Hc. rewrite Hid in Hc. simpl in Hc.
       unfold refreshed in Hc. rewrite Hid in Hc. unfold knows, get_host in Hkn.
       destruct (mget id (hosts (s_ring s))) as [e|] eqn:E; [|congruence].
